@@ -757,6 +757,18 @@ class SStr:
     def __repr__(self):
         return "<SStr len=%d>" % len(self.c)
 
+    def __str__(self):
+        c = self.concrete()
+        if c is not None:
+            return c
+        raise Unsupported("str() of symbolic text (would silently become a placeholder)")
+
+    def __format__(self, spec):
+        c = self.concrete()
+        if c is not None:
+            return format(c, spec)
+        raise Unsupported("format() of symbolic text")
+
 
 # ---------------------------------------------------------------- primitive stubs
 _UF = {}
